@@ -36,8 +36,8 @@ Attrs ==
                         [] LastSt.pk = "exact" -> ContainerExact(LastSt.ra),
           fprefix |-> IF LastSt.t = "R" THEN ""
                       ELSE CASE LastSt.fk = "none" -> ""
-                             [] LastSt.fk = "infl" -> Written(FlattenInfl(ParentIdx, Idx(LastSt.ra, LastSt.pk)))
-                             [] LastSt.fk = "exact" -> FlattenExact(ParentIdx, Idx(LastSt.ra, LastSt.pk)),
+                             [] LastSt.fk = "infl" -> Written(FlattenInfl(ParentIdx, Idx(LastSt.ra, LastSt.pk), TagIdx(LastSt.tk, LastSt.tsg)))
+                             [] LastSt.fk = "exact" -> FlattenExact(ParentIdx, Idx(LastSt.ra, LastSt.pk), TagIdx(LastSt.tk, LastSt.tsg)),
           senum |-> SEnumStyle(Idx(LastSt.ra, LastSt.pk))]
 
 Line ==
